@@ -103,7 +103,7 @@ THEOREMS = [("Kopf.Props.C03", "Kopf.C03." + n) for n in [
     "all_selected_completed", "completed_against_final_partial", "absorbed_change_witness",
     "open_pass_leaves_event", "sleeping_handler_woken_instance", "invoked_once_after_last_change", "restart_safe",
     "accumulated_change", "blind_left_alone", "blind_witness", "free_purges", "free_witness", "shared_id_regression",
-    "pass_is_cycleB", "namesake_children_leak_witness",
+    "pass_is_cycleB", "free_turn_is_cycleB", "namesake_children_leak_witness",
     "carried_none", "carried_noop_comes_back", "carried_ops_leaves_event", "carried_converges",
     "carried_noop_witness", "carried_noop_blocks_release_witness",
     "inconsistent_empty", "inconsistent_nonempty_revisited", "inconsistent_converges", "inconsistent_nonempty_witness",
